@@ -65,8 +65,9 @@ theorem ewEnvelopeWritten_not_writing (w : World) (st : St) (e : EW) :
     envelope) is being consumed. -/
 def mu (e : EW) (data : Bytes) : Nat := 2 * data.length + (if e.writingEnvelope then 0 else 1)
 
-/-- While an envelope is being collected at least one of its bytes is still missing. -/
-def EnvInv (e : EW) : Prop := e.writingEnvelope = true → 1 ≤ e.remaining
+/-- While an envelope is being collected (and the writer is not latched in an error) at least one
+    of its bytes is still missing. -/
+def EnvInv (e : EW) : Prop := e.err = false → e.writingEnvelope = true → 1 ≤ e.remaining
 
 
 theorem ewLoop_err (w : World) (tb : Tables) (n : Nat) (st : St) (e : EW) (d : Bytes) (h : e.err = true) :
@@ -113,9 +114,9 @@ theorem ewLoop_fuel (w : World) (tb : Tables) : ∀ (n : Nat) (st : St) (e : EW)
             · simp [hbad2]
             · simp only [hbad2, Bool.false_eq_true, if_false]
               apply ih
-              · intro h; rw [hnw] at h; cases h
+              · intro _ h; rw [hnw] at h; cases h
               · have hwe : e.writingEnvelope = true := hw2 ▸ hw
-                have h1 : 1 ≤ e.remaining := hinv hwe
+                have h1 : 1 ≤ e.remaining := hinv (by simpa using herr) hwe
                 unfold mu at hmu ⊢
                 simp only [hwe, if_true, hnw, Bool.false_eq_true, if_false, hrest] at hmu ⊢
                 omega
@@ -143,7 +144,7 @@ theorem ewLoop_fuel (w : World) (tb : Tables) : ∀ (n : Nat) (st : St) (e : EW)
               · rfl
             · simp only [ht, Bool.false_eq_true, if_false]
               apply ih
-              · intro _; simp
+              · intro _ _; simp
               · unfold mu at hmu ⊢
                 simp only [hwe, Bool.false_eq_true, if_false, if_true, hrest] at hmu ⊢
                 omega
@@ -162,7 +163,66 @@ theorem ewLoop_enough (w : World) (tb : Tables) (st : St) (e : EW) (data : Bytes
     exact (ewLoop_fuel w tb _ st e data hinv hmu).symm
 
 /-- `maybeInit` establishes the invariant for an enveloped backend. -/
-example : EnvInv { writingEnvelope := true, remaining := 5 } := by intro _; decide
+example : EnvInv { writingEnvelope := true, remaining := 5 } := by intro _ _; decide
 
+
+
+/-- The invariant the termination argument needs is kept by the loop itself, so it holds before
+    every later `Write` of the same response as well. -/
+theorem ewLoop_keeps_inv (w : World) (tb : Tables) : ∀ (n : Nat) (st : St) (e : EW) (data : Bytes),
+    EnvInv e → EnvInv (ewLoop w tb n st e data).2.1 := by
+  intro n
+  induction n with
+  | zero => intro st e data h; simpa [ewLoop] using h
+  | succ m ih =>
+    intro st e data hinv
+    unfold ewLoop
+    by_cases herr : e.err = true
+    · simp only [herr, if_true]; exact hinv
+    · have herrf : e.err = false := by simpa using herr
+      simp only [herr, Bool.false_eq_true, if_false]
+      by_cases hlt : (data.length : Int) < e.remaining
+      · simp only [hlt, if_true]
+        have hflags := ewWritePiece_flags w st e data
+        generalize ewWritePiece w st e data = r1 at hflags ⊢
+        obtain ⟨s1, e1, f1, p1⟩ := r1
+        simp only at hflags ⊢
+        obtain ⟨hw1, hrem1⟩ := hflags
+        intro _ hw
+        simp only at hw ⊢
+        have := hinv herrf (hw1 ▸ hw)
+        rw [hrem1]; omega
+      · simp only [hlt, if_false]
+        have hflags := ewWritePiece_flags w st e (data.take e.remaining.toNat)
+        generalize ewWritePiece w st e (data.take e.remaining.toNat) = r1 at hflags ⊢
+        obtain ⟨s1, e1, f1, p1⟩ := r1
+        simp only at hflags ⊢
+        obtain ⟨hw1, hrem1⟩ := hflags
+        by_cases hbad : (f1 || p1) = true
+        · simp only [hbad, if_true]; intro h; simp at h
+        · simp only [hbad, Bool.false_eq_true, if_false]
+          by_cases hw : e1.writingEnvelope = true
+          · simp only [hw, if_true]
+            split
+            · intro _ h; simp only at h; rw [ewEnvelopeWritten_not_writing] at h; cases h
+            · apply ih; intro _ h; rw [ewEnvelopeWritten_not_writing] at h; cases h
+          · have hwf : e1.writingEnvelope = false := by simpa using hw
+            simp only [hwf, Bool.false_eq_true, if_false]
+            by_cases ht : e1.currentIsTrailer = true
+            · simp only [ht, if_true]
+              split
+              · generalize handleEndMessage w tb s1 _ _ true = r3
+                obtain ⟨s2, err, p2⟩ := r3
+                simp only
+                by_cases hbad3 : (err.isSome || p2) = true
+                · simp only [hbad3, if_true]; intro _ h; simp at h
+                · simp only [hbad3, Bool.false_eq_true, if_false]
+                  by_cases hre : (data.drop e.remaining.toNat).isEmpty = true
+                  · simp only [hre, if_true]; intro h; simp at h
+                  · simp only [hre, Bool.false_eq_true, if_false]
+                    apply ih; intro h; simp at h
+              · intro _ h; simp at h
+            · simp only [ht, Bool.false_eq_true, if_false]
+              apply ih; intro _ _; simp
 
 end Vanguard.C11
